@@ -731,7 +731,7 @@ fn lattice_api(out: &mut Out, rng: &mut Rng, pool: &[(ReplicatedValue, &'static 
 /// every `pub fn` / trait impl of the three anchored files, from the source the binary was built
 /// against, and how this harness drives it
 fn coverage(out: &mut Out) {
-    use crate::c06msg::{non_test, read_src, repo_dir, scan_pub_fns};
+    use crate::c06msg::{repo_dir, scan_pub_fns};
     let mut table: BTreeMap<String, String> = BTreeMap::new();
     let files: [(&str, &[&str]); 3] = [
         ("src/replication/lattice.rs", &["ReplicaId", "LamportClock", "LwwRegister", "VectorClock", "GCounter", "PNCounter", "GSet", "UniqueTag", "ORSet"]),
@@ -785,14 +785,22 @@ fn coverage(out: &mut Out) {
             _ => return None,
         })
     };
+    // session 4, round 2: each anchored file is read as a MODULE TREE (the file and the child
+    // modules it declares with `mod x;`): a type moved into `lattice/clock.rs` is the same type
+    let crate_code = crate::modtree::crate_files(&repo_dir());
+    let mut trees = serde_json::Map::new();
+    let mut uncalled: BTreeMap<String, String> = BTreeMap::new();
     for (file, types) in files {
-        let Some(src) = read_src(file) else {
-            out.violation("C07:coverage:source-scan-failed", "an anchored source file could not be read from the tree the harness was built against", json!({"file": file, "tree": repo_dir()}));
-            continue;
-        };
-        let src = non_test(&src).to_string();
-        // kani / test sections of lattice.rs come after the library part
-        let src = match src.find("#[cfg(kani)]") { Some(i) => src[..i].to_string(), None => src };
+        let tree = crate::modtree::tree(&repo_dir(), file);
+        if tree.files.is_empty() || !tree.unresolved.is_empty() {
+            out.violation("C07:coverage:source-scan-failed", "an anchored source file, or a child module it declares with `mod x;`, could not be read from the tree the harness was built against", json!({"file": file, "unresolved": tree.unresolved, "tree": repo_dir()}));
+            if tree.files.is_empty() {
+                continue;
+            }
+        }
+        trees.insert(file.to_string(), json!(tree.file_list()));
+        // library code only (comments, #[cfg(test)] / #[cfg(kani)] items removed)
+        let src = tree.text();
         let mut names: Vec<(String, String)> = Vec::new();
         for ty in types.iter() {
             for f in scan_pub_fns(&src, ty) {
@@ -820,6 +828,14 @@ fn coverage(out: &mut Out) {
                 Some(h) => {
                     table.insert(key, h.to_string());
                 }
+                None if f.chars().next().map(|c| c.is_lowercase()).unwrap_or(false) && crate::modtree::uses_of(&crate_code, &f).is_empty() => {
+                    // a NEW pub fn that nothing in the crate calls or names (no occurrence of the
+                    // identifier in the library code of src/ besides its own definition): it cannot
+                    // reach a merge — listed in the evidence, not a violation
+                    table.insert(key.clone(), "NEW, not driven: no caller anywhere in the crate's library code".into());
+                    uncalled.insert(key.clone(), file.to_string());
+                    out.count("coverage:new-uncalled-pub-fn");
+                }
                 None => {
                     table.insert(key.clone(), "UNACCOUNTED".into());
                     out.violation(&format!("C07:coverage:fn-not-driven:{}", key), "a public function / trait impl of the replicated value lattice exists in the source the harness was built against, but the harness neither drives it nor says why not", json!({"name": key, "file": file}));
@@ -828,6 +844,8 @@ fn coverage(out: &mut Out) {
         }
     }
     out.extra.insert("api_coverage(derived from lattice.rs, crdt_value.rs, replicated_value.rs)".into(), json!(table));
+    out.extra.insert("api_coverage_module_trees(files read per anchored module)".into(), serde_json::Value::Object(trees));
+    out.extra.insert("new_uncalled_pub_fns(listed, not driven)".into(), json!(uncalled));
 }
 
 /// the deprecated merge across kinds (known finding, must be re-found on every run)
@@ -866,7 +884,7 @@ fn audit() -> serde_json::Value {
        "covered": "the full value (crdt, vector clock, expiry, stamp, rf) AND every public accessor of every operand and result (A lines: get, is_tombstone, crdt_type, is_lww, is_hash, lww, get_hash, hash_get, get_replica_count, value, is_empty, contains, len, get_tags, VectorClock::get, get_replication_factor); the three laws are evaluated on the values and once more through the accessors; Lean: obs_all_idem / comm / assoc_partial",
        "open": ""},
       {"class": 10, "topic": "finding signatures", "covered": "C07:assoc:cross-kind:crdt (kinds mixed, field 'crdt' differs) and C07:comm:deprecated-crdt-merge:cross-kind (only across kinds: the same-kind variant is a violation) are disjoint from every other failure of the laws", "open": ""},
-      {"class": 11, "topic": "harness fragility", "covered": "the function list comes from the source the binary was built against; a failed or implausibly short scan is a violation; a value the mirror cannot read is a named case, not a panic", "open": ""},
+      {"class": 11, "topic": "harness fragility", "covered": "the function list comes from the source the binary was built against — round 2: from the MODULE TREE of each anchored file (child modules declared with `mod x;`; a type moved into lattice/clock.rs keeps its coverage rows), a new pub fn that nothing in the crate names is listed (new_uncalled_pub_fns), not a violation; a failed or implausibly short scan is a violation; a value the mirror cannot read is a named case, not a panic", "open": ""},
       {"class": "session-4", "topic": "what session 4 added",
        "covered": "observations: every value of the reachable pools carries its key; pairs of ONE key (deltas, stored values, merges of those — what C07.Reach ranges over, over-sampled) must be tie-consistent (C07:reach:tie-inconsistent:*; theorem reachable_tie_consistent) and commute with no exclusion; comparisons: counts / Lamport times / expiries / rf at integer-width boundaries (2^31, 2^32±1, 2^53, 2^63, u64::MAX), both operands often on the same edge; capacity: hashes with 33..40 fields",
        "open": "counts above 2^53 (value() sums would overflow u64 under overflow-checks: Nat model)"},
